@@ -650,7 +650,7 @@ theorem inv_empty (cfg : Cfg) (ok : Nat → Bool) (n : Nat) (bs0 : List (List Na
   all_goals first | exact List.nodup_range | (intro p hp; exact hp)
 
 theorem init_spec (cfg : Cfg) (ok : Nat → Bool) (n : Nat) (t0 : Int)
-    (hne : cfg.batchSize = none ∨ (0 < n ∧ cfg.batchSize ≠ some 0)) :
+    (h0 : cfg.batchSize ≠ some 0) (hv : cfg.variant.emptyFirstBatchOk = true) :
     ∃ st, init cfg n t0 = .ok st ∧ Inv cfg ok n st [] ∧ Head cfg st := by
   unfold init
   cases hbs : cfg.batchSize with
@@ -665,16 +665,19 @@ theorem init_spec (cfg : Cfg) (ok : Nat → Bool) (n : Nat) (t0 : Int)
     simp [St.empty] at hb
   | some bs =>
     cases bs with
-    | zero => rcases hne with h | h <;> simp [hbs] at h
+    | zero => exact absurd hbs h0
     | succ k =>
-      have hn : 0 < n := by rcases hne with h | h; simp [hbs] at h; exact h.1
       obtain ⟨s1, s2⟩ := batched_spec k (List.range n)
       simp only
       cases hb : batched (k + 1) (List.range n) with
       | nil =>
+        -- empty input: no future is created, the loop is not entered
         rw [hb] at s1
-        have : (List.range n).length = 0 := by rw [← s1]; rfl
-        simp at this; omega
+        simp only [hv, if_true]
+        have hn : List.range n = [] := by rw [← s1]; rfl
+        have hi := inv_empty cfg ok n [] (by simp [hn])
+        exact ⟨_, rfl, hi, ⟨fun hc => by simp [hbs] at hc, by simp [submitBatch, St.empty],
+                            fun _ => by simp [submitBatch, St.empty]⟩⟩
       | cons b rest =>
         simp only
         rw [hb] at s1 s2
@@ -692,7 +695,7 @@ theorem init_spec (cfg : Cfg) (ok : Nat → Bool) (n : Nat) (t0 : Int)
 
 /-! ### one round, and the whole loop -/
 
-/-- the three facts about the code as it is that the proofs use -/
+/-- the facts about the code as it is that the proofs use (all four variant flags, sane thresholds, `batch_size ≥ 1`) -/
 structure IsFixed (cfg : Cfg) : Prop where
   v : cfg.variant = Variant.fixed
   thr : ThrOK cfg.thr
@@ -781,12 +784,9 @@ theorem runLoop_post (cfg : Cfg) (ok : Nat → Bool) (n : Nat) (hfx : IsFixed cf
       · rw [hs]
         exact ⟨w, rd, by simp, hi, he⟩
 
-theorem run_post (cfg : Cfg) (ok : Nat → Bool) (n : Nat) (t0 : Int) (rounds : List Round) (hfx : IsFixed cfg)
-    (hne : cfg.batchSize = none ∨ 0 < n) : Post cfg ok n rounds (run cfg ok n t0 rounds) := by
-  obtain ⟨st, hs, hi, hh⟩ := init_spec cfg ok n t0 (by
-    rcases hne with h | h
-    · exact Or.inl h
-    · exact Or.inr ⟨h, hfx.bs⟩)
+theorem run_post (cfg : Cfg) (ok : Nat → Bool) (n : Nat) (t0 : Int) (rounds : List Round) (hfx : IsFixed cfg) :
+    Post cfg ok n rounds (run cfg ok n t0 rounds) := by
+  obtain ⟨st, hs, hi, hh⟩ := init_spec cfg ok n t0 hfx.bs (by rw [hfx.v]; rfl)
   unfold run
   rw [hs]
   exact runLoop_post cfg ok n hfx rounds st hi hh
